@@ -334,3 +334,34 @@ example : WF cRef ∧ ((newOne intStream ⟨cRef, [], [(['a', '_', 'i', 'D'], .i
 
 end PyxProps.C19
 
+/-! ==========================================================================================================
+  APPLIED examples (audit round 2, item 12)
+  ========================================================================================================== -/
+namespace PyxProps.C19
+open Pyx.Attr Pyx.NewInst
+
+theorem cId_wf : WF cId := by unfold WF; decide
+def histEx : List HOp := [.create ⟨cId, [], []⟩, .next, .peek, .create ⟨cId, [], [(['I', 'D'], .int 9)]⟩, .create ⟨cId, [], []⟩]
+theorem histEx_wf : ∀ c, HOp.create c ∈ histEx → WF c.cls := by
+  intro c hc
+  simp only [histEx, List.mem_cons, HOp.create.injEq, List.not_mem_nil, or_false, reduceCtorEq, false_or] at hc
+  rcases hc with rfl | rfl | rfl <;> exact cId_wf
+
+/-- `ids_fresh_history` applied to the integer stream and a history with a user's `next` / `peek` and an explicit id: the
+    defaulted ids (1 and 4: the user's `next` took 2, the explicit creation consumed 3) are distinct, non-null values of
+    the stream -/
+example : (histDefaultedIds (runHist intStream histEx 0).1).Nodup ∧
+    (∀ x ∈ histDefaultedIds (runHist intStream histEx 0).1, ∃ p : Nat, 0 ≤ p ∧ x = some (.int (intStream p)) ∧ intStream p ≠ 0) ∧
+    histDefaultedIds (runHist intStream histEx 0).1 = [some (.int 1), some (.int 4)] :=
+  ⟨(ids_fresh_history intStream intStream_inj intStream_ne_zero histEx 0 histEx_wf).1,
+   (ids_fresh_history intStream intStream_inj intStream_ne_zero histEx 0 histEx_wf).2, by decide⟩
+
+/-- `driver_new_is_newOne` applied to the world the driver reaches after `define A (Id unique_id)`: the instance that
+    `new('a')` appends holds `newOne`'s dictionary ([Id ↦ 1]) and the generator moves to `newOne`'s position -/
+def wA : World := { World.empty with classes := [(['A'], cId)], nextId := 0 }
+example : (newInst intStream wA ['a'] [] []).1.insts = [{ cls := ['A'], dict := [(['I', 'd'], .int 1)] }] ∧
+    (newInst intStream wA ['a'] [] []).1.nextId = 1 :=
+  let h := driver_new_is_newOne intStream wA ['a'] [] [] cId rfl
+  ⟨by rw [h.2.1]; rfl, by rw [h.2.2.1]; rfl⟩
+
+end PyxProps.C19
